@@ -8,7 +8,7 @@ import collections
 from decimal import Decimal as D, ROUND_DOWN, ROUND_HALF_EVEN, ROUND_UP
 from fractions import Fraction as F
 
-from worlds.exch import PAIRS, SHAPES, T, call
+from worlds.exch import PAIRS, SHAPES, T, call, sym_prec, pair_prec
 
 ZERO = D(0)
 
@@ -21,13 +21,21 @@ def on_grid(x, prec):
     return D(x) == q(x, prec, ROUND_DOWN)
 
 
-def sym_prec(cfg, s):
-    return cfg["qp"] if s == "USD" else cfg["bp"]
-
-
 def pair_qp(cfg, pi):
     """Quote precision of a pair (cross pairs are quoted in a base symbol of another pair)."""
-    return sym_prec(cfg, PAIRS[pi].quote_symbol)
+    return pair_prec(cfg, pi)[1]
+
+
+def grid_prec(cfg, s):
+    """The finest precision configured for a symbol: its own (when configured) and that of every traded pair it is part
+    of. Amounts of that symbol move on this grid."""
+    precs = [] if cfg.get("dpi") else [sym_prec(cfg, s)]
+    for pi in range(cfg.get("pairs", 1)):
+        if PAIRS[pi].base_symbol == s:
+            precs.append(pair_prec(cfg, pi)[0])
+        if PAIRS[pi].quote_symbol == s:
+            precs.append(pair_prec(cfg, pi)[1])
+    return max(precs)
 
 
 class Tr:
@@ -268,8 +276,7 @@ def remaining_reservations(w, infos, upto=None):
 
 def valid_request(cfg, a):
     _, kind, side, pi, amt, lim, stp, ab, ar = a
-    bp = cfg["bp"]
-    qp = cfg["qp"] if PAIRS[pi].quote_symbol == "USD" else cfg["bp"]
+    bp, qp = pair_prec(cfg, pi)
     if D(amt) <= 0 or not on_grid(D(amt), bp):
         return False
     for p_ in (lim, stp):
@@ -347,27 +354,31 @@ def m_rejected(tr):
 def m_liquidity_precision(tr):
     bad = crashes(tr, ("bar",))
     w, cfg = tr.w, tr.cfg
-    bp, qp = cfg["bp"], cfg["qp"]
+    pair_of = {oid: w.meta[k]["pair"] for k, oid in enumerate(w.ids)}
     for oid, o in tr.after.orders.items():
         pb = tr.before.orders.get(oid)
         b0, q0, f0 = (pb.amount_filled, pb.quote_amount_filled, pb.fees) if pb else (ZERO, ZERO, {})
+        if oid not in pair_of:
+            continue
+        bp, qp = pair_prec(cfg, pair_of[oid])  # each fill is on the grid of ITS pair
         if not on_grid(o.amount_filled - b0, bp):
             bad.append(("base-off-grid", f"base fill {o.amount_filled - b0} not a multiple of 1e-{bp}"))
         if not on_grid(o.quote_amount_filled - q0, qp):
             bad.append(("quote-off-grid", f"quote fill {o.quote_amount_filled - q0} not a multiple of 1e-{qp}"))
         for s, f in o.fees.items():
-            if not on_grid(f - f0.get(s, ZERO), sym_prec(cfg, s)):
+            if not on_grid(f - f0.get(s, ZERO), qp):
                 bad.append(("fee-off-grid", f"fee {f - f0.get(s, ZERO)} {s} off the grid"))
     # the no-dust clause is about accounts whose initial balances and loan amounts are on the precision grid
-    on_grid_account = all(on_grid(D(str(a_)), sym_prec(cfg, s_)) for s_, a_ in cfg["init"]) and \
-        all(on_grid(lo.borrowed_amount, sym_prec(cfg, lo.borrowed_symbol)) for lo in tr.after.loans.values())
+    on_grid_account = all(on_grid(D(str(a_)), grid_prec(cfg, s_)) for s_, a_ in cfg["init"]) and \
+        all(on_grid(lo.borrowed_amount, grid_prec(cfg, lo.borrowed_symbol)) for lo in tr.after.loans.values())
     for s, (av, hold, bor, total) in tr.after.bal.items():
         for name, v in (("available", av), ("hold", hold), ("borrowed", bor)):
-            if on_grid_account and not on_grid(v, sym_prec(cfg, s)):
-                bad.append(("balance-dust", f"{s} {name}={v} is not a multiple of 1e-{sym_prec(cfg, s)}"))
+            if on_grid_account and not on_grid(v, grid_prec(cfg, s)):
+                bad.append(("balance-dust", f"{s} {name}={v} is not a multiple of 1e-{grid_prec(cfg, s)}"))
     if tr.a[0] in ("bar", "bar=") and not tr.raised:
         _, pi, si = tr.a
-        volume = D(SHAPES[si][4]) * D(1).scaleb(-bp)
+        bp, qp = pair_prec(cfg, pi)
+        volume = D(SHAPES[si][4]) * D(1).scaleb(-cfg["bp"])
         # infinite liquidity does not depend on the bar's volume
         budget = volume * D(str(cfg["liq"][0])) / 100 if cfg.get("liq") is not None else D("Infinity")
         o_, h_, l_, c_ = (D(x) for x in SHAPES[si][:4])
